@@ -29,6 +29,10 @@
 //!                       still pending that one is polled again instead (n ignored)
 //!   14,t                drop the StreamingPayload of t (and its pending chunk send, if any)
 //!   15,t                drop the pending chunk send of t
+//!   18,t                sink.close() and, in the same turn (nothing runs in between), a poll of task t
+//!   19,t,kind,id        spawn task t (kind 1, 3 or 4): the send future is handed to the executor (ntex::rt::spawn)
+//!                       instead of being polled by the case; it runs whenever it has been woken, in the executor's
+//!                       order.  One spawned task per case; operations 2 / 3 on it are ignored.
 //!   17,id               the peer writes a well-formed QoS 1 PUBLISH (topic "a", payload "x", packet id `id` as u16): an
 //!                       INBOUND request; the publish handler of the server answers at once with Ok, so the PUBACK(id)
 //!                       is written as the response (wire entry 104,id).  Ignored (on both sides of the comparison)
@@ -231,6 +235,50 @@ struct Task {
     chunk_status: u64,
 }
 
+/// a task future owned by the executor: its outcome is left in `out` (1 = still pending); `abort` drops it
+struct Spawned {
+    fut: Option<BoxFut<Out>>,
+    out: Rc<std::cell::Cell<u64>>,
+    abort: Rc<std::cell::Cell<bool>>,
+    waker: Rc<RefCell<Option<std::task::Waker>>>,
+}
+
+impl Future for Spawned {
+    type Output = ();
+
+    fn poll(self: Pin<&mut Self>, cx: &mut std::task::Context<'_>) -> Poll<()> {
+        let this = self.get_mut();
+        if this.abort.get() {
+            if let Some(f) = this.fut.take() {
+                guarded_drop(f);
+            }
+            return Poll::Ready(());
+        }
+        *this.waker.borrow_mut() = Some(cx.waker().clone());
+        let Some(mut f) = this.fut.take() else { return Poll::Ready(()) };
+        match guard(|| f.as_mut().poll(cx)) {
+            Some(Poll::Pending) => {
+                this.fut = Some(f);
+                Poll::Pending
+            }
+            Some(Poll::Ready(Out::Status(s))) => {
+                this.out.set(s);
+                Poll::Ready(())
+            }
+            Some(Poll::Ready(Out::Receipt(r))) => {
+                this.out.set(2);
+                guarded_drop(r);
+                Poll::Ready(())
+            }
+            None => {
+                this.out.set(9);
+                guarded_drop(f);
+                Poll::Ready(())
+            }
+        }
+    }
+}
+
 /// run `f`; a panic inside the crate is contained here
 fn guard<T>(f: impl FnOnce() -> T) -> Option<T> {
     catch_unwind(AssertUnwindSafe(f)).ok()
@@ -422,8 +470,33 @@ async fn drive<A: Api>(api: A, peer: IoTest, v5: bool, c: &Fields) -> Fields {
     let mut wire = Wire { v5, buf: Vec::new(), payload_left: 0 };
     let mut obs = Fields::new();
     let arg = |op: &Vec<u64>, i: usize| op.get(i).copied().unwrap_or(0);
+    // the task owned by the executor (operation 19): number, outcome cell, abort flag, last waker
+    type Auto = (u64, Rc<std::cell::Cell<u64>>, Rc<std::cell::Cell<bool>>, Rc<RefCell<Option<std::task::Waker>>>);
+    let mut auto: Option<Auto> = None;
     for op in &c[1..] {
+        let is_auto = |t: u64| auto.as_ref().is_some_and(|a| a.0 == t);
         match op.first().copied().unwrap_or(0) {
+            19 => {
+                let (t, kind, id) = (arg(op, 1), arg(op, 2), arg(op, 3));
+                if op.len() >= 4 && auto.is_none() && [1, 3, 4].contains(&kind) && !tasks.contains_key(&t) {
+                    let mut task = Task { kind, ..Task::default() };
+                    match guard(|| api.start(kind, id as u16, 0)) {
+                        None => task.status = 9,
+                        Some(Started::Sync(s)) => task.status = s,
+                        Some(Started::Fut(f)) | Some(Started::Stream(f, _)) => {
+                            task.status = 1;
+                            let out = Rc::new(std::cell::Cell::new(1u64));
+                            let abort = Rc::new(std::cell::Cell::new(false));
+                            let waker = Rc::new(RefCell::new(None));
+                            let sp = Spawned { fut: Some(f), out: out.clone(), abort: abort.clone(), waker: waker.clone() };
+                            ntex::rt::spawn(sp);
+                            auto = Some((t, out, abort, waker));
+                        }
+                    }
+                    tasks.insert(t, task);
+                }
+            }
+            2 | 3 if is_auto(arg(op, 1)) => {}
             o @ (1 | 16) => {
                 let first_poll = o == 1;
                 let (t, kind, id, size) = (arg(op, 1), arg(op, 2), arg(op, 3), arg(op, 4));
@@ -503,6 +576,13 @@ async fn drive<A: Api>(api: A, peer: IoTest, v5: bool, c: &Fields) -> Fields {
             8 => api.wrb(arg(op, 1) != 0),
             9 => api.set_cap(arg(op, 1) as usize),
             10 => api.close(),
+            // a graceful close and, in the same turn (nothing runs in between), a poll of task t
+            18 => {
+                api.close();
+                if let Some(task) = tasks.get_mut(&arg(op, 1)) {
+                    task.poll_main();
+                }
+            }
             11 => api.force_close(),
             12 => api.set_idx(arg(op, 1) as u16),
             13 => {
@@ -564,6 +644,11 @@ async fn drive<A: Api>(api: A, peer: IoTest, v5: bool, c: &Fields) -> Fields {
             u64::from(open && api.is_ready()),
             u64::from(open),
         ];
+        if let Some((t, out, _, _)) = &auto
+            && let Some(task) = tasks.get_mut(t)
+        {
+            task.status = out.get();
+        }
         for (t, task) in &tasks {
             o.push(*t);
             o.push(task.status);
@@ -577,6 +662,13 @@ async fn drive<A: Api>(api: A, peer: IoTest, v5: bool, c: &Fields) -> Fields {
         obs.push(o);
     }
     // tear down: futures first, then the connection
+    if let Some((_, _, abort, waker)) = auto.take() {
+        abort.set(true);
+        if let Some(w) = waker.borrow_mut().take() {
+            w.wake();
+        }
+        settle().await;
+    }
     for (_, task) in std::mem::take(&mut tasks) {
         guarded_drop(task);
     }
